@@ -695,9 +695,7 @@ def run(ctx):
                 ctx.notes.append("stream %s stopped by the time budget after %d of %d cases" % (name, done, len(cases)))
                 full = False
                 break
-            from harness import known_c23
-            check_case(ctx, case, cfg, drv, "F5-loop-index-on-scalar-part" if known_c23.loop_index_on_scalar_part(case)
-                       else "nested" if case.get("levels") else finding_class(case))
+            check_case(ctx, case, cfg, drv, "nested" if case.get("levels") else finding_class(case))
             done += 1
         ctx.count("plan:" + name, done)
         ctx.extra["exhaustive"][name] = bool(full)
